@@ -222,6 +222,36 @@ func (n *Node) Add(b *types.Block) (err error) {
 	return nil
 }
 
+// AddSynced inserts a block the way the full-sync downloader does (protocol/full.go: processBatch / applyDeferredBlocks):
+// on a check state taken with ForCheckWithOverwrite at the start of the batch, AddBlock(block, checkState) followed by
+// checkState.FinalizePrecommit(block).  The caller keeps the check state for the batch (nil starts a new one).
+func (n *Node) AddSynced(b *types.Block, checkState *appstate.AppState) (cs *appstate.AppState, err error) {
+	defer func() {
+		if r := recover(); r != nil {
+			err = fmt.Errorf("addblock (sync route) panic: %v\n%s", r, debug.Stack())
+		}
+	}()
+	cs = checkState
+	if cs == nil {
+		if cs, err = n.App.ForCheckWithOverwrite(n.Chain.Head.Height()); err != nil {
+			return nil, err
+		}
+	}
+	if err = n.Chain.AddBlock(b, cs, collector.NewStatsCollector()); err != nil {
+		return nil, err
+	}
+	if err = cs.FinalizePrecommit(b); err != nil {
+		return nil, err
+	}
+	if n.VC != nil && !n.Real {
+		n.VC.FxOnBlock(b)
+	}
+	if n.Real && RealAfterAdd != nil {
+		RealAfterAdd(n, b)
+	}
+	return cs, nil
+}
+
 // CloneBlock passes a block through its wire encoding (what another node would receive).
 func CloneBlock(b *types.Block) (*types.Block, error) {
 	raw, err := b.ToBytes()
